@@ -520,8 +520,8 @@ class Session:
             nrej = len(self.rejections)
             try:
                 await self._exec_op(ctx, args[0])
-            except StopProgram:
-                if len(self.rejections) == nrej:
+            except StopProgram as stop:
+                if len(self.rejections) == nrej or getattr(stop, "fatal", False):
                     raise
         elif name == "glob":
             pattern, subs = args[0], (args[1] if len(args) > 1 else {})
@@ -572,15 +572,19 @@ class Session:
             self.log(op="peek", label=label, job=job, path=path, sha=digest)
         elif name == "env":
             ctx["envs"].append((args[0], ctx["env"].get(args[0])))
-        elif name == "amend":
+        elif name in ("amend", "amend_swallow"):
             spec = args[0]
             self.log(op="amend", label=label, job=job, spec=spec)
             carry_on = await self._call(ctx, "amend_step", h.amend_step(
                 job, list(spec.get("inp", [])), set(spec.get("env", [])),
                 list(spec.get("out", [])), list(spec.get("vol", []))))
             self.log(op="amend_reply", label=label, job=job, carry_on=carry_on)
-            if carry_on is False:
-                raise StopProgram(1, "InputNotFoundError")
+            if carry_on is False and name == "amend":
+                # api.amend() raises InputNotFoundError here; generated programs never carry on
+                # after it (the one scenario that does is C10's "swallowed_amend")
+                stop = StopProgram(1, "InputNotFoundError")
+                stop.fatal = True
+                raise stop
         elif name in ("write", "write_partial"):
             path = args[0]
             if name == "write_partial":
